@@ -54,6 +54,15 @@ def make_plan(rng, tier, index):
     }
     n_ops = rng.choice([8, 15, 30, 50])
     ops = buffersim.gen_ops(rng, family, prio, n_tasks, cap, H, n_ops, cls == "PrioritizedReplayBuffer")
+    if prio and rng.random() < 0.5:
+        # scenario: the running maximum priority is above every stored priority at the moment of the restart
+        # (raised by an update, the raised entries lowered again), then additions and sampling continue
+        B = rng.choice([1, 2])
+        pre = [["add", 0] for _ in range(rng.randint(2, cap + 1))]
+        pre += [["sample", B, [0.5] * B, 0, 1, True, 0.4 if cls == "PrioritizedReplayBuffer" else None], ["update", [rng.choice([20.0, 50.0])]],
+                ["sample", B, [0.5] * B, 0, 1, True, 0.4 if cls == "PrioritizedReplayBuffer" else None], ["update", [rng.choice([0.25, 0.5])]],
+                ["restart"], ["add", 0], ["law", 2, 2], ["add", 0], ["enum", 2, 1, True]]
+        ops = pre + ops
     # make sure restarts land inside the history, not only where the swarm put them
     for _ in range(rng.choice([1, 1, 2, 3])):
         ops.insert(rng.randrange(1, len(ops)), ["restart"])
